@@ -1,5 +1,5 @@
-(* Proofs/GenAgreeLoop.v — property C13: the guards tools/go2v (extractor "looperrs") reads off the head of
-   the main loop of runner.run (Gen/LoopErrors.v: the cancellation test and the step-limit test, in source
+(* Proofs/GenAgreeC13Loop.v — property C13: the guards tools/go2v (extractor "looperrs") reads off the head of
+   the main loop of runner.run (Gen/C13LoopErrors.v: the cancellation test and the step-limit test, in source
    order, with the errors they build, translated constructor by constructor) ARE what the model's run loop
    ([steps] of Model/Errors.v) does at the same place:
 
@@ -14,7 +14,7 @@
    translated guards (gen_loop_cancellation_matchable, gen_loop_step_limit_matchable). *)
 From Coq Require Import Lia.
 From Eino Require Import Base.Util Model.Errors Model.ErrorsLoopLib Proofs.Errors.
-From Eino Require Gen.LoopErrors.
+From Eino Require Gen.C13LoopErrors.
 
 Ltac c13_num_cases :=
   repeat match goal with
@@ -24,11 +24,11 @@ Ltac c13_num_cases :=
          end; cbn [negb andb orb]; try reflexivity; try (exfalso; lia).
 
 Theorem gen_loop_head_agrees : forall ctx_err cause dag step maxSteps,
-  loop_check Gen.LoopErrors.loop_guards ctx_err cause dag step maxSteps = loop_check_model ctx_err dag step maxSteps.
+  loop_check Gen.C13LoopErrors.loop_guards ctx_err cause dag step maxSteps = loop_check_model ctx_err dag step maxSteps.
 Proof.
   intros [ce|] cause dag step m; [reflexivity|].
   first [ reflexivity
-        | unfold loop_check_model, Gen.LoopErrors.loop_guards; cbn [loop_check]; destruct dag; cbn [negb andb orb]; c13_num_cases ].
+        | unfold loop_check_model, Gen.C13LoopErrors.loop_guards; cbn [loop_check]; destruct dag; cbn [negb andb orb]; c13_num_cases ].
 Qed.
 
 (* the model's guards, as [steps] applies them: the counter of [steps] counts down from the limit *)
@@ -54,7 +54,7 @@ Qed.
 
 (* hence the translated head of the loop is the head of [steps] *)
 Theorem gen_loop_head_is_steps : forall F stream rec all loop br st rest items (canc : bool) cause step maxSteps e,
-  loop_check Gen.LoopErrors.loop_guards (if canc then Some (Leaf id_canceled) else None) cause false step maxSteps = Some e ->
+  loop_check Gen.C13LoopErrors.loop_guards (if canc then Some (Leaf id_canceled) else None) cause false step maxSteps = Some e ->
   steps F stream rec all loop br (maxSteps - step) (st :: rest) items canc = GFail [e].
 Proof.
   intros F stream rec all loop br st rest items canc cause step m e H.
@@ -63,14 +63,14 @@ Qed.
 
 (* an all-predecessor graph has no step limit *)
 Theorem gen_loop_no_limit_in_dag : forall cause step maxSteps,
-  loop_check Gen.LoopErrors.loop_guards None cause true step maxSteps = None.
+  loop_check Gen.C13LoopErrors.loop_guards None cause true step maxSteps = None.
 Proof. intros. rewrite gen_loop_head_agrees. reflexivity. Qed.
 
 (* the property's clauses on the translated guards: a run stopped by its context returns an error on which
    errors.Is finds the context's OWN error — whatever it is (Canceled, DeadlineExceeded) and whatever cause
    the cancellation was given —, a graph-level error that names no node by itself *)
 Theorem gen_loop_cancellation_matchable : forall ce cause dag step maxSteps,
-  exists e, loop_check Gen.LoopErrors.loop_guards (Some ce) cause dag step maxSteps = Some e
+  exists e, loop_check Gen.C13LoopErrors.loop_guards (Some ce) cause dag step maxSteps = Some e
             /\ is_ ce e = true /\ np_of e = [].
 Proof.
   intros ce cause dag step m. rewrite gen_loop_head_agrees. cbn [loop_check_model].
@@ -82,7 +82,7 @@ Qed.
 
 (* ... and the error the loop returns when the limit is reached matches the documented sentinel *)
 Theorem gen_loop_step_limit_matchable : forall cause dag step maxSteps e,
-  loop_check Gen.LoopErrors.loop_guards None cause dag step maxSteps = Some e ->
+  loop_check Gen.C13LoopErrors.loop_guards None cause dag step maxSteps = Some e ->
   is_ (Leaf id_exceed) e = true /\ dag = false /\ maxSteps <= step.
 Proof.
   intros cause dag step m e H. rewrite gen_loop_head_agrees in H. cbn [loop_check_model] in H.
@@ -93,10 +93,10 @@ Qed.
 
 (* non-vacuity: a context done with a cause, at step 2 of a graph with limit 5; the limit reached at step 5 *)
 Example gen_loop_nonvacuous :
-  loop_check Gen.LoopErrors.loop_guards (Some (Leaf id_canceled)) (Leaf 77) false 2 5
+  loop_check Gen.C13LoopErrors.loop_guards (Some (Leaf id_canceled)) (Leaf 77) false 2 5
     = Some (new_graph_run_error (Wrapf (Leaf id_canceled)))
-  /\ loop_check Gen.LoopErrors.loop_guards None (Leaf 77) false 5 5 = Some (new_graph_run_error (Leaf id_exceed))
-  /\ loop_check Gen.LoopErrors.loop_guards None (Leaf 77) false 4 5 = None.
+  /\ loop_check Gen.C13LoopErrors.loop_guards None (Leaf 77) false 5 5 = Some (new_graph_run_error (Leaf id_exceed))
+  /\ loop_check Gen.C13LoopErrors.loop_guards None (Leaf 77) false 4 5 = None.
 Proof. repeat split; reflexivity. Qed.
 
 (* the seeded change: wrapping context.Cause(ctx) loses the context's own error whenever a cause was given *)
